@@ -194,25 +194,38 @@ func (m *UnboundedFairMailbox) Enqueue(msg *ReceiveContext) error {
 // Single consumer
 // - Must be called by exactly one goroutine (the actor’s receiver loop).
 func (m *UnboundedFairMailbox) Dequeue() (msg *ReceiveContext) {
-	sq := m.active.dequeue()
-	if sq == nil {
-		return nil
-	}
-
-	msg = sq.mailbox.Dequeue()
-	if msg == nil {
-		// The sub-queue only looked empty: a producer that has swapped the tail but
-		// not yet linked its node hides every message enqueued behind it, and those
-		// messages may already be counted in pending. Deactivate, then re-check
-		// exactly as finalizeSender does; otherwise nobody would ever re-activate
-		// this sender (pending never passes through 1 again) and its messages stay
-		// in the mailbox forever. A counted message of this sender implies
-		// m.length > 0 (length is incremented before pending).
-		sq.active.Store(false)
-		if atomic.LoadInt64(&m.length) > 0 && atomic.LoadInt64(&sq.pending) > 0 && sq.active.CompareAndSwap(false, true) {
-			m.active.enqueue(sq)
+	var sq *senderBox
+	for {
+		sq = m.active.dequeue()
+		if sq == nil {
+			return nil
 		}
-		return
+
+		msg = sq.mailbox.Dequeue()
+		if msg != nil {
+			break
+		}
+
+		// The sub-queue looked empty. Deactivate, then re-check exactly as
+		// finalizeSender does.
+		sq.active.Store(false)
+		if atomic.LoadInt64(&m.length) > 0 && atomic.LoadInt64(&sq.pending) > 0 {
+			// It only looked empty: a counted message of this sender is still being
+			// published (or is hidden behind a producer that has swapped the tail but
+			// not yet linked its node). Nobody else would re-activate the sender
+			// (pending never passes through 1 again), so do it here and report nil:
+			// an enqueue is in flight. A counted message of this sender implies
+			// m.length > 0 (length is incremented before pending).
+			if sq.active.CompareAndSwap(false, true) {
+				m.active.enqueue(sq)
+			}
+			return nil
+		}
+		// The sender had nothing to deliver: it was listed by a late activation (a
+		// producer saw pending == 1 but performed its CompareAndSwap only after the
+		// sender had been served and deactivated again). Returning nil here would
+		// report an empty mailbox while other senders have messages waiting; go on
+		// with the next active sender.
 	}
 
 	atomic.AddInt64(&m.length, -1)
